@@ -11,13 +11,14 @@ NOT_APPLICABLE = {
 
 PLAN = {
     "C01": dict(
-        verus=["group_cycle"], kani=["slots", "wkc", "storage", "rx"], assumptions=['Kani has no threads: every operation is proved from an arbitrary slot state; their composition under concurrency is the Verus lemma slot_protocol plus the memory-model assumption', 'receive_frame / lookup harnesses are bounded in slots, slot size and input length (listed under bounded_not_counted_as_proved)', 'the contract of the 2nd and later items of ReceivedPduIter is assumed (CBMC does not finish two calls)'], level="proof",
+        verus=["group_cycle", "rx_route"], kani=["slots", "wkc", "storage", "rx"], assumptions=['Kani has no threads: every operation is proved from an arbitrary slot state; their composition under concurrency is the Verus lemma slot_protocol plus the memory-model assumption', 'receive_frame / lookup harnesses are bounded in slots, slot size and input length (listed under bounded_not_counted_as_proved)', 'the contract of the 2nd and later items of ReceivedPduIter is assumed (CBMC does not finish two calls)'], level="proof",
         claim="sequential core of response routing on the real code (Kani): index lookup returns the lowest matching slot and never an empty one; "
               "receive_frame stores the response byte-exact into exactly the Sent slot that owns the first datagram index and marks it RxDone; "
               "poll returns Ok only from RxDone; first_pdu validates command/index and views exactly the datagram's data area; trim_front "
               "shortens the view; wkc is the two bytes after the data; a genuine response is always Processed, a fitting datagram with the expected command and index is "
               "always delivered (completeness clauses); MainDevice::single_pdu extracted whole (Verus): one datagram with the caller's command and max(data, override) bytes goes "
-              "out and the caller gets the data area and counter of what came back for it. Loop-free harnesses over full-domain inputs are complete; receive_frame is "
+              "out and the caller gets the data area and counter of what came back for it; PduRx::receive_frame extracted WHOLE (Verus unit rx_route: ANY number of slots, slot size and "
+              "input length): the outcome is exactly route(bytes, markers, states) - Ignored / error / stored byte-exact into the lowest slot whose marker matches and which awaits a response. Loop-free harnesses over full-domain inputs are complete; receive_frame is "
               "a bounded stand-in (N=2, DATA=44, input <= 50 bytes).",
         note="the quantifier over schedules is NOT decided by contracts: it rests on the stated assumption that an execution is an interleaving of the "
              "atomic slot operations whose sequential contracts are proved here (C02 composition argument); known finding D2 (view outlives its slot)",
@@ -50,10 +51,15 @@ PLAN = {
              "pointer code is in the Kani groups); the BYTE CONTENT harnesses are bounded in frame size and datagram count (stated under bounded_not_counted_as_proved)",
     ),
     "C05": dict(
-        verus=[], kani=["rx", "storage", "slots", "frame_header"], assumptions=['bounded: N=2 slots, 44-byte slots, inputs <= 50 bytes'], level="proof",
-        claim="receive_frame on arbitrary bytes: totality, Ignored/Err leave buffers and markers untouched, strangers ignored, unmatched index never accepted "
-              "(Kani bounded stand-in: N=2, DATA=44, length<=50, everything else symbolic); claim_receiving / lookup / marker functions complete",
-        note="the length and slot-count bounds are stated in the evidence under bounded_not_counted_as_proved",
+        verus=["rx_route"], kani=["rx", "storage", "slots", "frame_header"], assumptions=['slot storage (raw pointers, atomics) seen through the contracts of frame_index_by_first_pdu_index / claim_receiving / mark_received / buf_mut proved by Kani on the real code (bounded N)', 'the Kani stand-in on the real storage is bounded: N=2 slots, 44-byte slots, inputs <= 50 bytes'], level="proof",
+        claim="PduRx::receive_frame extracted WHOLE (Verus unit rx_route, UNBOUNDED: any number of slots, any slot size, any input length, any bytes): the outcome is exactly "
+              "route(bytes, markers, slot states): Ignored iff exit flag / not EtherCAT / own echo / empty frame; an error for short frames, foreign frame types, truncated or "
+              "index-less datagram areas, an index nobody has sent, a slot that does not await a response, a response larger than the slot; otherwise Processed with the datagram "
+              "area stored byte-exact in the lowest slot whose marker matches - never a panic, never an out-of-bounds slice; the same function on the real pointer storage as a "
+              "Kani bounded stand-in (N=2, DATA=44, length<=50: buffers and markers untouched on Ignored/Err); claim_receiving / lookup / marker functions / frame header complete",
+        note="the Verus unit sees the slot storage through the contracts proved on the pointer code by the Kani groups storage and slots (lookup = lowest matching slot, claim "
+             "iff Sent, mark_received publishes the area) and the EthernetFrame accessors through the contract checked by Kani rx::eth_accessors; a response too large for the "
+             "slot leaves the claimed slot RxBusy until the requester's timeout (see C06-U2)",
     ),
     "C06": dict(
         verus=["slot_protocol"], kani=["slots"], assumptions=['virtual clock: embassy_time_driver::now / schedule_wake and timer_factory::timer are stubbed; real time is not modelled', 'known findings C06-U1..U5 are suppressed by exact obligation key only'], level="proof",
